@@ -658,6 +658,9 @@ func (t *termer) t(v ssa.Value, d int) string {
 			withCallEnv(v, callee, func() { s = t.t(rv, d+1) })
 			return s
 		}
+		if s := t.mergedResult(v, d); s != "" {
+			return s
+		}
 		return t.call(v, d)
 	case *ssa.Extract:
 		if c, ok := v.Tuple.(*ssa.Call); ok {
@@ -682,10 +685,13 @@ func (t *termer) t(v ssa.Value, d int) string {
 		var es []string
 		seen := map[string]bool{}
 		for _, e := range v.Edges {
-			s := t.t(e, d+1)
-			if !seen[s] {
-				seen[s] = true
-				es = append(es, s)
+			// a nested merge (a helper with several returns rendered as the merge of its results, see the Call case) is
+			// spliced in, so that the merge does not depend on where the branches were written
+			for _, s := range splitPhi(t.t(e, d+1)) {
+				if !seen[s] {
+					seen[s] = true
+					es = append(es, s)
+				}
 			}
 		}
 		sort.Strings(es)
@@ -738,6 +744,83 @@ func (t *termer) t(v ssa.Value, d int) string {
 		return "select"
 	}
 	return fmt.Sprintf("%T", v)
+}
+
+// splitPhi returns the elements of a rendered merge "phi(a, b, ...)" (split at top-level commas), or the term itself.
+func splitPhi(s string) []string {
+	if !strings.HasPrefix(s, "phi(") || !strings.HasSuffix(s, ")") || !balanced(s[4:len(s)-1]) {
+		return []string{s}
+	}
+	body := s[4 : len(s)-1]
+	var out []string
+	depth, start := 0, 0
+	inStr := false
+	for i := 0; i < len(body); i++ {
+		c := body[i]
+		switch {
+		case c == '"' && (i == 0 || body[i-1] != '\\'):
+			inStr = !inStr
+		case inStr:
+		case c == '(' || c == '[':
+			depth++
+		case c == ')' || c == ']':
+			depth--
+			if depth < 0 {
+				return []string{s} // "phi(a) + (b)" is not a merge
+			}
+		case c == ',' && depth == 0 && i+1 < len(body) && body[i+1] == ' ':
+			out = append(out, body[start:i])
+			start = i + 2
+		}
+	}
+	out = append(out, body[start:])
+	return out
+}
+
+// mergedResult renders the single result of a looked-through helper that has several return statements as the merge
+// of the returned values (what the same branches written inline produce), or "" if v is not such a call.
+func (t *termer) mergedResult(v *ssa.Call, d int) string {
+	if liftDepth >= maxLiftDepth {
+		return ""
+	}
+	callee := transparentCallee(v)
+	if callee == nil || callee.Signature.Results().Len() != 1 || singleReturn(callee) != nil {
+		return ""
+	}
+	if isErrorType(callee.Signature.Results().At(0).Type()) {
+		return "" // error results are followed by the outcome analysis (spliceHelperOutcomes), not by value
+	}
+	seen := map[string]bool{}
+	var es []string
+	withCallEnv(v, callee, func() {
+		for _, b := range callee.Blocks {
+			if len(b.Instrs) == 0 {
+				continue
+			}
+			ret, ok := b.Instrs[len(b.Instrs)-1].(*ssa.Return)
+			if !ok {
+				continue
+			}
+			rs := unspill(ret)
+			if len(rs) != 1 {
+				continue
+			}
+			for _, s := range splitPhi(t.t(rs[0], d+1)) {
+				if !seen[s] {
+					seen[s] = true
+					es = append(es, s)
+				}
+			}
+		}
+	})
+	if len(es) == 0 {
+		return ""
+	}
+	sort.Strings(es)
+	if len(es) == 1 {
+		return es[0]
+	}
+	return "phi(" + strings.Join(es, ", ") + ")"
 }
 
 func isStringType(t types.Type) bool {
@@ -1118,6 +1201,24 @@ func sameValue(a, b ssa.Value) bool {
 	a, b = strip(a), strip(b)
 	if a == b {
 		return true
+	}
+	// a local variable that is assigned exactly once (and only read by the literals capturing it) stands for the
+	// value assigned: a variable becomes such a cell as soon as some function literal mentions it
+	cell := func(v ssa.Value) ssa.Value {
+		if ld, ok := v.(*ssa.UnOp); ok && ld.Op == token.MUL {
+			if al, ok := ld.X.(*ssa.Alloc); ok {
+				if sv := singleStore(al); sv != nil {
+					return strip(sv)
+				}
+			}
+		}
+		return v
+	}
+	if ca, cb := cell(a), cell(b); ca != a || cb != b {
+		if ca == cb {
+			return true
+		}
+		a, b = ca, cb
 	}
 	// two loads of the same location that is never stored to in this function (go/ssa does no CSE)
 	la, ok1 := a.(*ssa.UnOp)
